@@ -1,1 +1,61 @@
-From NC Require Import Model.Base Model.SessionLTS.
+(* Props/C11.v — notifications are queued exactly once, in order, without disturbing RPCs.
+   Model: Model/SessionLTS.v; the device profile enters through [qualify] (perform_qualify_check). *)
+From NC Require Import Model.Base Model.SessionLTS Proofs.SessionLTSProofs.
+
+(* At every reachable state, for both kinds of profile: what was taken, followed by what is queued,
+   followed by the notification being enqueued right now (if any), is exactly the sequence of notifications
+   dispatched so far — each once, in arrival order. *)
+Theorem C11_queue_history : forall s,
+  reach s -> taken s ++ nq s ++ pend_notif (pc s) = recv_notifs s.
+Proof. exact c11_queue_history. Qed.
+Print Assumptions C11_queue_history.
+
+(* Dispatching a notification touches no request, no table entry, not the connection ... *)
+Theorem C11_not_a_reply : forall s n s',
+  step s (LRecv 2 n) = Some s' ->
+  reqs s' = reqs s /\ table s' = table s /\ connected s' = connected s /\ deliver_log s' = deliver_log s /\
+  pc s' = WNotif n.
+Proof. exact c11_not_a_reply. Qed.
+Print Assumptions C11_not_a_reply.
+
+(* ... and the only thing the worker can do next is enqueue it and return to the idle loop: no lookup,
+   no delivery, no error path (whatever [qualify] is). *)
+Theorem C11_enqueue_only : forall s n l s',
+  pc s = WNotif n -> step s l = Some s' ->
+  (l = LNqPut n /\ pc s' = WIdle /\ nq s' = nq s ++ [n] /\ reqs s' = reqs s /\ table s' = table s /\
+   connected s' = connected s)
+  \/ pc s' = WNotif n.
+Proof. exact c11_enqueue_only. Qed.
+Print Assumptions C11_enqueue_only.
+
+(* take_notification returns the head of the queue (FIFO), and None only when nothing is queued. *)
+Theorem C11_take_fifo : forall s got n s',
+  step s (LTake got n) = Some s' ->
+  (got = true /\ exists t, nq s = n :: t /\ nq s' = t /\ taken s' = taken s ++ [n]) \/
+  (got = false /\ nq s = [] /\ s' = s).
+Proof. exact c11_take_fifo. Qed.
+Print Assumptions C11_take_fifo.
+
+(* Non-vacuity: a profile without tag check (junos-like, qualify = false), notifications interleaved with a
+   reply; the request completes with its own reply, the notifications come out in order. *)
+Example C11_ex :
+  match run (init false)
+          [ LReg 0 100; LChk 0 true; LPut 0; LDeq 0; LRecv 2 1; LNqPut 1; LTake true 1;
+            LRecv 0 100; LTGet 100 true; LRecv 2 2 ] with
+  | Some _ => False | None => True end /\
+  match run (init false)
+          [ LReg 0 100; LChk 0 true; LPut 0; LDeq 0; LRecv 2 1; LNqPut 1; LTake true 1;
+            LRecv 0 100; LTGet 100 true; LEvSetReply 0; LTDel 100; LRecv 2 2; LNqPut 2; LRecv 2 3; LNqPut 3;
+            LWaitRes 0 true; LTake true 2; LTake false 0 ] with
+  | Some _ => False
+  | None => True
+  end /\
+  match run (init false)
+          [ LReg 0 100; LChk 0 true; LPut 0; LDeq 0; LRecv 2 1; LNqPut 1; LTake true 1;
+            LRecv 0 100; LTGet 100 true; LEvSetReply 0; LTDel 100; LRecv 2 2; LNqPut 2; LRecv 2 3; LNqPut 3;
+            LWaitRes 0 true; LTake true 2 ] with
+  | Some s => taken s = [1; 2] /\ nq s = [3] /\ recv_notifs s = [1; 2; 3] /\ connected s = true /\
+              map r_st (reqs s) = [CDone (OReply 100)]
+  | None => False
+  end.
+Proof. vm_compute. repeat split; reflexivity. Qed.
